@@ -6,7 +6,7 @@
    matrices are universally quantified. *)
 From Coq Require Import List Arith Bool String.
 From BV Require Import Algebra.Mat Algebra.OpLang Algebra.PotLang Algebra.OpProofs Algebra.PotProofs.
-From BV Require Import Algebra.DiscLang Algebra.DiscProofs Algebra.PotAlgebra Algebra.GfLang Algebra.GfProofs.
+From BV Require Import Algebra.DiscLang Algebra.DiscProofs Algebra.PotAlgebra Algebra.GfLang Algebra.GfProofs Algebra.BlockMat.
 From BVgen Require Import OpClasses.
 Import ListNotations.
 
@@ -181,3 +181,46 @@ Theorem C14_grid_function_arithmetic : forall (A : Type) (r0 r1 : A) (radd rmul 
   end.
 Proof. exact gf_arithmetic. Qed.
 Print Assumptions C14_grid_function_arithmetic.
+
+(* transposes: exactly Dense, Sparse, Diagonal and RankOne operators define _transpose/_adjoint (regenerated list), and
+   what they build has the transposed matrix *)
+Theorem C14_leaf_transposes : forall (A : Type) (r0 r1 : A) (radd rmul rsub : A -> A -> A) (ropp : A -> A),
+  ring_theory r0 r1 radd rmul rsub ropp eq -> forall (l : leaf A) (k : trkind),
+  kind_of_class (leaf_class A l) = Some k ->
+  meq A (leaf_dense A r0 rmul (leaf_transpose A k l)) (mtrans A (leaf_dense A r0 rmul l)).
+Proof. exact leaf_transposes. Qed.
+Print Assumptions C14_leaf_transposes.
+
+Theorem C14_transposable_classes :
+  kind_of_class "DenseDiscreteBoundaryOperator" = Some TrDense /\ kind_of_class "SparseDiscreteBoundaryOperator" = Some TrDense /\
+  kind_of_class "DiagonalOperator" = Some TrSelf /\ kind_of_class "DiscreteRankOneOperator" = Some TrSwap /\
+  List.length transposable = 4%nat.
+Proof. exact transposable_now. Qed.
+Print Assumptions C14_transposable_classes.
+
+(* what the transposes of Sum / Scaled / Product operators have to be (these classes define none: recorded finding) *)
+Theorem C14_composite_transposes : forall (A : Type) (r0 r1 : A) (radd rmul rsub : A -> A -> A) (ropp : A -> A),
+  ring_theory r0 r1 radd rmul rsub ropp eq -> forall (X Y : M A) (a : A),
+  meq A (mtrans A (madd A radd X Y)) (madd A radd (mtrans A X) (mtrans A Y)) /\
+  meq A (mtrans A (mscale A rmul a X)) (mscale A rmul a (mtrans A X)) /\
+  (cols X = rows Y -> meq A (mtrans A (mmul A r0 radd rmul X Y)) (mmul A r0 radd rmul (mtrans A Y) (mtrans A X))).
+Proof. exact composite_transposes. Qed.
+Print Assumptions C14_composite_transposes.
+
+(* BlockedDiscreteOperator (any numbers and sizes of block rows/columns, any blocks, None = zero block): the product of the
+   assembled dense block matrix with x equals the blockwise _matvec/_matmat, and region (p, q) of the dense matrix is block (p, q)
+   or zeros *)
+Theorem C14_blocked_matrix : forall (A : Type) (r0 r1 : A) (radd rmul rsub : A -> A -> A) (ropp : A -> A),
+  ring_theory r0 r1 radd rmul rsub ropp eq ->
+  forall (nr nc : nat) (rd cd : nat -> nat) (blk : nat -> nat -> option (M A)) (x : M A),
+  meq A (mmul A r0 radd rmul (block_dense A r0 nr nc rd cd blk) x) (block_matmat A r0 radd rmul nr nc rd cd blk x).
+Proof. exact block_matmat_dense. Qed.
+Print Assumptions C14_blocked_matrix.
+
+Theorem C14_blocked_matrix_regions : forall (A : Type) (r0 : A) (nr nc : nat) (rd cd : nat -> nat)
+  (blk : nat -> nat -> option (M A)) (p q li lj : nat),
+  (p < nr)%nat -> (q < nc)%nat -> (li < rd p)%nat -> (lj < cd q)%nat ->
+  ent (block_dense A r0 nr nc rd cd blk) (off rd p + li) (off cd q + lj) =
+  match blk p q with Some m => ent m li lj | None => r0 end.
+Proof. exact block_dense_region. Qed.
+Print Assumptions C14_blocked_matrix_regions.
